@@ -15,4 +15,9 @@ def noise : List String := [
 
 def dropNoise (sk : List String) : List String := sk.filter (fun a => !noise.contains a)
 
+/-- `pat` occurs as a contiguous block of `l` -/
+def hasSub : List String → List String → Bool
+  | [], pat => pat.isEmpty
+  | a :: l, pat => pat.isPrefixOf (a :: l) || hasSub l pat
+
 end Mkts.Skel
